@@ -104,9 +104,17 @@ def c07b(ctx):
         for st in fn.walk():
             if not isinstance(st, ast.If):
                 continue
-            lhs_rhs = [c for c in ast.walk(st.test) if isinstance(c, ast.Compare)]
+            lhs_rhs = [c for c in ast.walk(st.test) if isinstance(c, ast.Compare) or is_call(c, 'samestat')]
             for c in lhs_rhs:
-                sides = [c.left] + c.comparators
+                samestat = isinstance(c, ast.Call)
+                if samestat:
+                    # os.path.samestat(a, b) == (a.st_ino == b.st_ino and a.st_dev == b.st_dev); mismatch edge = not samestat
+                    sides = list(c.args)
+                    raise_in = st.body if isinstance(st.test, ast.UnaryOp) and isinstance(st.test.op, ast.Not) and st.test.operand is c else \
+                        st.orelse if st.test is c else []
+                else:
+                    sides = [c.left] + c.comparators
+                    raise_in = st.body + st.orelse
                 if len(sides) != 2:
                     continue
                 a_f = depends(sides[0], lambda x: is_call(x, 'os.fstat', 'fstat'), defs)
@@ -115,9 +123,9 @@ def c07b(ctx):
                 b_s = depends(sides[1], lambda x: is_call(x, 'os.stat', 'stat', 'os.lstat'), defs)
                 if (a_f and b_s) or (a_s and b_f):
                     n = g.node_of.get(id(st))
-                    ino = all(depends(s, lambda x: isinstance(x, ast.Attribute) and x.attr == 'st_ino', defs) for s in sides)
+                    ino = samestat or all(depends(s, lambda x: isinstance(x, ast.Attribute) and x.attr == 'st_ino', defs) for s in sides)
                     raises = any(isinstance(b, ast.Raise) and contains(b, lambda x: isinstance(x, ast.Name) and x.id == 'LockError')
-                                 for b in st.body + st.orelse)
+                                 for b in raise_in)
                     after = n is not None and g.dominates(an, n) and an != n
                     found = (fn, st, ino, raises, after, defs, g)
     construct = 'LockFile:path-identity-after-flock'
@@ -291,7 +299,22 @@ def c07e(ctx):
     fn = ctx.fn(LOCK + ':SemLock._try_lock')
     g = fn.cfg
     defs = Defs(fn.node)
-    idefs = defs.of('i')
+    # the locals are found by their role, not by their name: the slot is what is appended to the lock file name, the attempt
+    # counter is the local incremented by one in the loop
+    lf = [x for x in fn.walk() if is_call(x, 'LockFile')]
+    iv = None
+    for x in lf:
+        a0 = x.args[0] if x.args else None
+        if isinstance(a0, ast.BinOp) and isinstance(a0.op, ast.Add) and unparse(a0.left) == 'self.lock_file' and is_call(a0.right, 'str') and \
+                isinstance(a0.right.args[0], ast.Name):
+            iv = a0.right.args[0].id
+    ok = bool(lf) and iv is not None and all(unparse(x.args[0]).replace(' ', '') == 'self.lock_file+str(%s)' % iv for x in lf)
+    ctx.check(ok, 'SemLock._try_lock:slot-file', 'slot files are lock_file + str(slot)', fn)
+    iv = iv or 'i'
+    incs = [s for s in fn.walk() if isinstance(s, ast.AugAssign) and isinstance(s.target, ast.Name) and isinstance(s.op, ast.Add) and
+            const_value(s.value) == 1 and s.target.id != iv]
+    tv = incs[0].target.id if incs else 'tries'
+    idefs = defs.of(iv)
     init = [v for v, sel in idefs if is_call(v, 'random.randint', 'randint', 'randrange', 'random.randrange')]
     upd = [v for v, sel in idefs if v not in init]
     ok = len(init) == 1
@@ -308,32 +331,28 @@ def c07e(ctx):
         step = None
         if form:
             a = affine(v.left)
-            step = a.get('i') if a else None
+            step = a.get(iv) if a else None
             const = a.get('', 0) if a else None
             form = step == 1 and const in (1, -1)
         oku = oku and form
     ctx.check(oku, 'SemLock._try_lock:next-slot', 'the slot advances by +/-1 modulo self.n (all n slots are visited, never more than n names)',
-              fn, fail='the slot update %s is not (i +/- 1) %% self.n: slots are skipped or leave 0..n-1 (more than n holders possible)'
+              fn, fail='the slot update %s is not (slot +/- 1) %% self.n: slots are skipped or leave 0..n-1 (more than n holders possible)'
               % [unparse(v) for v in upd])
-    lf = [x for x in fn.walk() if is_call(x, 'LockFile')]
-    ok = bool(lf) and all(unparse(x.args[0]).replace(' ', '') == 'self.lock_file+str(i)' for x in lf)
-    ctx.check(ok, 'SemLock._try_lock:slot-file', 'slot files are lock_file + str(i)', fn)
     # gives up only on an edge implying tries >= self.n
     raises = g.find_stmts(lambda s: isinstance(s, ast.Raise))
     okr = bool(raises)
     for n in raises:
         # accepted guards:  not (tries < self.n)   [tries >= n]   or   self.n < tries  [tries > n]
-        a = g.guarded(n, lambda at: at.op == '<' and unparse(at.left) == 'tries' and unparse(at.right) == 'self.n', False)
-        b = g.guarded(n, lambda at: at.op == '<' and unparse(at.left) == 'self.n' and unparse(at.right) == 'tries', True)
-        c = g.guarded(n, lambda at: at.op == '==' and {unparse(at.left), unparse(at.right)} == {'tries', 'self.n'}, True)
+        a = g.guarded(n, lambda at: at.op == '<' and unparse(at.left) == tv and unparse(at.right) == 'self.n', False)
+        b = g.guarded(n, lambda at: at.op == '<' and unparse(at.left) == 'self.n' and unparse(at.right) == tv, True)
+        c = g.guarded(n, lambda at: at.op == '==' and {unparse(at.left), unparse(at.right)} == {tv, 'self.n'}, True)
         okr = okr and (a or b or c)
         h = enclosing(g.stmt[n], ast.ExceptHandler)
         okr = okr and h is not None
     ctx.check(okr, 'SemLock._try_lock:give-up-after-n', 'the attempt is abandoned (LockError re-raised) only when tries >= n', fn,
               fail='the semaphore gives up before all n slots were tried (busy first slot => LockError although other slots are free)')
-    incs = [s for s in fn.walk() if isinstance(s, ast.AugAssign) and unparse(s.target) == 'tries' and isinstance(s.op, ast.Add) and const_value(s.value) == 1]
     loop = [s for s in fn.walk() if isinstance(s, ast.While)]
-    ok = len(incs) == 1 and bool(loop) and inside(incs[0], loop[0]) and [v for v, sel in defs.of('tries') if sel is None and const_value(v) == 0]
+    ok = len(incs) == 1 and bool(loop) and inside(incs[0], loop[0]) and [v for v, sel in defs.of(tv) if sel is None and const_value(v) == 0]
     ctx.check(bool(ok), 'SemLock._try_lock:counts-tries', 'tries starts at 0 and is incremented once per attempt', fn)
     init_ = ctx.fn(LOCK + ':SemLock.__init__')
     ok = any(isinstance(s, ast.Assign) and unparse(s.targets[0]) == 'self.n' and unparse(s.value) == 'n' for s in init_.walk())
